@@ -2869,10 +2869,12 @@ impl SctpInner {
         // carries our INIT or COOKIE ECHO). The peer is established as soon as it has
         // the COOKIE ECHO and may send at once; if its COOKIE ACK is lost, that DATA
         // gets here first, and taking it would deliver messages on channels that are
-        // only announced open in handle_cookie_ack. It is discarded unacknowledged
-        // and comes again.
-        if self.t1_chunk.lock().is_some() {
-            debug!("SCTP: discarding DATA (tsn {}) received during our handshake", tsn);
+        // only announced open in handle_cookie_ack. The same holds on the side that
+        // answered an INIT and has not seen the COOKIE ECHO yet: DATA that overtook it
+        // would be acknowledged, and a late copy of the INIT would then rewind the
+        // receive point behind it. It is discarded unacknowledged and comes again.
+        if self.t1_chunk.lock().is_some() || self.awaiting_cookie_echo.load(Ordering::SeqCst) {
+            debug!("SCTP: discarding DATA (tsn {}) received during the handshake", tsn);
             return Ok(());
         }
 
